@@ -238,10 +238,13 @@ class IncrementalPublisher:
                 )
         elif isinstance(event, GroupFailureEvent):
             group = cast("DeliveryGroup", event.group)
+            id_ = self._ids.get(group)
+            if id_ is None:
+                # A group that failed before it was started has never been announced
+                # as pending, so there is nothing to report as completed.
+                return
             context.completed.append(
-                CompletedResult(
-                    self._ensure_id(group), [ensure_graphql_error(event.error)]
-                )
+                CompletedResult(id_, [ensure_graphql_error(event.error)])
             )
             del self._ids[group]
         elif isinstance(event, StreamValuesEvent):
